@@ -19,6 +19,7 @@ def run(cx):
     send = cc.Fn(cx, cc.MC + "send")
     r1_r2_r4(cx, send)
     cc.check_recv_protocol(cx, "C07.R3", "varlink")
+    cc.check_slot_writers(cx, "C07.R3", "varlink")
     r5(cx)
     r6(cx)
 
